@@ -1173,6 +1173,7 @@ func checkChunkLoopPaths(c *Ctx, r *Report, retr, parser *ssa.Function, name str
 			return a.Root == root && a.SelString() == "Rsp.CipherSuiteRecordsChunk"
 		}
 		var bufRoot ssa.Value
+		var lastAppend *ssa.Call
 		for n, sidx := range sends {
 			nSends++
 			if rootOf(sidx) != root {
@@ -1202,7 +1203,30 @@ func checkChunkLoopPaths(c *Ctx, r *Report, retr, parser *ssa.Function, name str
 			nw := 0
 			for j := sidx + 1; j < end; j++ {
 				call, ok := occs[j].In.(*ssa.Call)
-				if !ok || calleeName(&call.Call) != "(*bytes.Buffer).Write" {
+				if !ok {
+					continue
+				}
+				// accumulated in a byte slice: acc = append(acc, chunk...), each append extending
+				// the previous one (or the empty start)
+				if bi, isB := call.Call.Value.(*ssa.Builtin); isB && bi.Name() == "append" && len(call.Call.Args) == 2 && isChunkLoad(j, call.Call.Args[1]) {
+					prev := p.Upto(occs[j].Seg).ResolveIn(occs[j].Ctx, call.Call.Args[0])
+					okPrev := false
+					switch pv := prev.(type) {
+					case *ssa.Const:
+						okPrev = pv.Value == nil && lastAppend == nil
+					case *ssa.Call:
+						okPrev = lastAppend != nil && pv == lastAppend
+					case *ssa.Slice, *ssa.MakeSlice:
+						okPrev = lastAppend == nil
+					}
+					if !okPrev {
+						okAppend = false
+					}
+					lastAppend = call
+					nw++
+					continue
+				}
+				if calleeName(&call.Call) != "(*bytes.Buffer).Write" {
 					continue
 				}
 				if isChunkLoad(j, call.Call.Args[1]) {
@@ -1291,7 +1315,11 @@ func checkChunkLoopPaths(c *Ctx, r *Report, retr, parser *ssa.Function, name str
 				// the parser receives the whole buffer
 				call := occs[parsed].In.(*ssa.Call)
 				good := false
-				if bc, ok := p.Upto(occs[parsed].Seg).ResolveIn(occs[parsed].Ctx, call.Call.Args[0]).(*ssa.Call); ok && calleeName(&bc.Call) == "(*bytes.Buffer).Bytes" {
+				parg := p.Upto(occs[parsed].Seg).ResolveIn(occs[parsed].Ctx, call.Call.Args[0])
+				if lastAppend != nil && parg == ssa.Value(lastAppend) && lastOcc(occs, parsed, lastAppend) > sidx {
+					good = true
+				}
+				if bc, ok := parg.(*ssa.Call); ok && calleeName(&bc.Call) == "(*bytes.Buffer).Bytes" {
 					pos := lastOcc(occs, parsed, bc)
 					if pos > sidx && bufRoot != nil && p.Upto(occs[pos].Seg).APIn(occs[pos].Ctx, bc.Call.Args[0]).Root == bufRoot {
 						good = true
